@@ -91,6 +91,14 @@ DESC = {
               "LISTEN_FDS >= 1 set but LISTEN_PID absent: the server adopts fd 3 although LISTEN_PID does not name it"),
     "C16-2": ("C16", "varlink_connect: `split(';').next()` replaced by `rsplit_once(';')` (only the LAST parameter is cut)",
               "an address with two or more `;` parameters: client and server disagree on the socket name"),
+    "C18-1": ("C18", "proxy::handle: one buffer created before the outer loop replaces the per-message Vec::new(); cleared in the relay loop and after it",
+              "a oneway call followed by another request: the `continue` skips the clear, the next request is glued onto the oneway one and the bridge exits 1"),
+    "C18-2": ("C18", "the routing target is parsed only when a lookup is needed; the address cache is keyed by the method prefix, stored before the description query's interface replaces it",
+              "two consecutive GetInterfaceDescription queries for interfaces living in different services: the second goes to the first service"),
+    "C18-3": ("C18", "the org.varlink.resolver case pulled out of the `iface != last_iface` cache block into its own branch (address overwritten, cache key not updated)",
+              "a call on interface X, a service-info query, X again: the third call is connected to the resolver"),
+    "C18-4": ("C18", "relay loop: the per-reply `let mut buf = Vec::new()` hoisted out of the loop, the clear() forgotten",
+              "a `more` call answered with two or more replies: reply 1 and 2 arrive glued together, the bridge fails to parse its own buffer and exits non-zero"),
     "C19-1": ("C19", "per-client step re-encoded as an index into a STEPS table; the gate becomes `if step > context.step { false } else { advance }`",
               "Start, Test01, Test02, then Test01 again: the earlier step is answered with its success reply and rewinds the client"),
     "C19-2": ("C19", "check_client_id uses `contexts.entry(client_id.into()).or_default()` with Default = Test01: unknown ids are enrolled",
